@@ -16,8 +16,8 @@ from vlib.core import Stage, fail
 ID = "C17"
 MANIFEST = {
     "category": "exploration",
-    "text": "Generated-input search against an oracle written from the statement: value pools of 1-5 entries (valid AHB expressions of all documented forms, incl. packages) x entered input in {absent, empty, an offered qualifier, a pool qualifier that is not offered, a foreign value} x parent status in {required, optional, forbidden} x content evaluation results incl. UNKNOWN, through validate_data_element_valuepool directly and through validate_segment; a quarter of the cases inject the shipped ContentEvaluationResult based evaluators once and validate the same pool twice under two different content evaluation results that define its packages differently. possible_values must list exactly the qualifiers whose own expression is fulfilled, in pool order, with their meanings; nothing offered or forbidden segment => IS_FORBIDDEN with nothing offered; entered value offered => ..._AND_FILLED and not flagged; entered non-empty value not offered => flagged (format_validation_fulfilled False) and ..._AND_EMPTY; no input => ..._AND_EMPTY, not flagged.",
-    "note": "Trusted: the reference evaluation of entry expressions (vlib/ref.py) and the oracle in this module. Whether a non-forbidden pool is reported REQUIRED or OPTIONAL is not constrained by the statement and not checked.",
+    "text": "Generated-input search against an oracle written from the statement: value pools of 1-5 entries (valid AHB expressions of all documented forms, incl. packages) x entered input in {absent, empty, an offered qualifier, a pool qualifier that is not offered, a foreign value} x parent status in {required, optional, forbidden} x content evaluation results incl. UNKNOWN, through validate_data_element_valuepool directly and through validate_segment; a quarter of the cases inject the shipped ContentEvaluationResult based evaluators once and validate the same pool twice under two different content evaluation results that define its packages differently. possible_values must list exactly the qualifiers whose own expression is fulfilled, in pool order, with their meanings; nothing offered or forbidden segment => IS_FORBIDDEN with nothing offered; entered value offered => ..._AND_FILLED and not flagged; entered non-empty value not offered => flagged (format_validation_fulfilled False) and ..._AND_EMPTY; no input => ..._AND_EMPTY, not flagged. Meaning texts of pool entries are generated as well (blank, '0', equal to the qualifier).",
+    "note": "Trusted: the reference evaluation of entry expressions (vlib/ref.py) and the oracle in this module. Whether a non-forbidden pool is reported REQUIRED or OPTIONAL is not constrained by the statement and not checked. Process configuration by shard (vlib/sut.py; recorded in replay files): plain / parse caches preheated beyond their size / warnings attributed to ahbicht raised as errors / logging fully enabled with every record rendered.",
     "technique": "property-based testing against a reference predicate (offered set computed by the reference evaluator)",
 }
 LEVEL = "exploration"
@@ -50,7 +50,10 @@ def judge(result, element, offered, parent_forbidden, what):
         if possible:
             fail("forbidden-parent", f"{what}: segment forbidden but values {possible} are offered")
         return
-    expected_possible = [(q, "meaning of " + q) for q in offered]
+    meanings = {}
+    for entry in element["pool"]:
+        meanings.setdefault(entry["q"], vtree.meaning(entry))  # the generator gives a repeated qualifier one meaning
+    expected_possible = [(q, meanings[q]) for q in offered]
     qualifiers = [e["q"] for e in element["pool"]]
     if len(set(qualifiers)) != len(qualifiers):
         # a qualifier occurs more than once: which of its positions counts as "its" place is not specified
@@ -95,7 +98,7 @@ def check_long_lived(case):
     for round_number, name in enumerate(("first", "second")):
         cer, table = case[name]["cer"], case[name]["table"]
         _CER.set(sut.make_cer(rc=cer["rc"], fc=cer["fc"], hints=cer["hints"], packages=table))
-        pool = [{"q": e["q"], "expr": e["expr"][name]} for e in element["pool"]]
+        pool = [{**e, "expr": e["expr"][name]} for e in element["pool"]]
         current = {"t": "vp", "d": element["d"], "pool": pool, "inp": element["inp"]}
         offered = vtree.offered(pool, cer["rc"])
         res = sut.call(direct, vtree.build_element(current), getattr(values, parent))
@@ -166,6 +169,8 @@ def classify(case, info):
         labels.append("input=in-pool-not-offered")
     else:
         labels.append("input=foreign")
+    if entered in offered and any(e["q"] == entered and vtree.meaning(e).strip() == "" for e in element["pool"]):
+        labels.append("entered-value-has-blank-meaning")
     if len({e["q"] for e in element["pool"]}) != len(element["pool"]):
         labels.append("duplicate-qualifier")
     proper = 0 < len(offered) < len({e["q"] for e in element["pool"]})
@@ -198,7 +203,7 @@ def strategy(tier):  # pylint:disable=unused-argument
                 else:
                     text, ast = f"{indicator} [{rc}] ", ["rc", rc]
                 variants[name] = {"s": text, "parts": [[indicator, ast]]}
-            pool.append({"q": qualifier, "expr": variants})
+            pool.append(vtree.with_meaning(draw, {"q": qualifier, "expr": variants}))
         entered = draw(st.sampled_from([None, "", "Q"] + qualifiers + qualifiers))
         rounds = {}
         for name, (table, _) in zip(("first", "second"), tables):
@@ -214,7 +219,8 @@ def strategy(tier):  # pylint:disable=unused-argument
         if len(qualifiers) >= 2 and draw(st.sampled_from(range(5))) == 0:
             # the same qualifier twice, with different expressions (maus allows it, e.g. after replace_value_pool)
             qualifiers.insert(draw(st.integers(0, len(qualifiers))), draw(st.sampled_from(qualifiers)))
-        pool = [{"q": q, "expr": draw(vtree.node_expression(table_asts))} for q in qualifiers]
+        texts = {q: vtree.with_meaning(draw, {"q": q}) for q in set(qualifiers)}
+        pool = [{**texts[q], "expr": draw(vtree.node_expression(table_asts))} for q in qualifiers]
         cer = draw(vtree.g_cer(weights=draw(st.sampled_from(["FUK", "FFU", "UUF", "U", "FUUK"]))))
         kind = draw(st.sampled_from(["none", "empty", "pool", "pool", "pool", "foreign"]))
         entered = {"none": None, "empty": "", "foreign": draw(st.sampled_from(["Q", "zz", "a", " A"]))}.get(kind)
